@@ -402,7 +402,12 @@ func (r *runner) run() int {
 		if len(tc.GenInclude) > 0 && (strings.Contains(name, "_Parse_") || strings.Contains(name, "_Model_") || strings.Contains(name, "_Long_")) {
 			inc := false
 			for _, g := range tc.GenInclude {
-				if strings.Contains(name, g) {
+				// "<substring>" or "<suffix>$" (exact end of the harness name)
+				if strings.HasSuffix(g, "$") {
+					if strings.HasSuffix(name, strings.TrimSuffix(g, "$")) {
+						inc = true
+					}
+				} else if strings.Contains(name, g) {
 					inc = true
 				}
 			}
